@@ -392,6 +392,9 @@ func (fc *FuncCtx) frameFormula(h string, before, after *Term, alloc0 *Term, loc
 	if before == after {
 		return True
 	}
+	if strings.HasPrefix(h, "IT:") {
+		return True
+	}
 	if strings.HasPrefix(h, "G:") || strings.HasPrefix(h, "FV:") {
 		for _, l := range locs {
 			if l.Heap == h {
@@ -558,10 +561,20 @@ func elabModLoc(p *Program, m string, env *Env) (locs []ModLoc, err error) {
 		}
 		return []ModLoc{{Heap: p.elemHeap(sl.Elem()), At: SBase(v.T), Lo: SOff(v.T), Hi: hi}}, nil
 	}
-	// x.f
+	// x.f  or  x[i] (one cell of a slice)
 	e, perr := ParseSpec(m)
 	if perr != nil {
 		return nil, perr
+	}
+	if ie, ok := e.(SIndex); ok {
+		v := env.elab(ie.X)
+		sl, ok := v.Typ.Underlying().(*types.Slice)
+		if !ok {
+			return nil, fmt.Errorf("%s: not a slice element", m)
+		}
+		iv := env.elab(ie.I)
+		lo := Add(SOff(v.T), iv.T)
+		return []ModLoc{{Heap: p.elemHeap(sl.Elem()), At: SBase(v.T), Lo: lo, Hi: Add(lo, IntLit(1))}}, nil
 	}
 	fe, ok := e.(SField)
 	if !ok {
@@ -795,6 +808,14 @@ func (fc *FuncCtx) modOfInstr(fr *Frame, ins ssa.Instruction, cells map[*ssa.All
 		// effects of a spawned goroutine are not modelled sequentially
 	case *ssa.Send:
 		mi.heaps["ghost:chan"] = true
+	case *ssa.Next:
+		if r, ok := x.Iter.(*ssa.Range); ok {
+			if mt, ok := r.X.Type().Underlying().(*types.Map); ok {
+				h := iterHeapName(r)
+				fc.p.registerHeap(h, ArraySort(sortOf(mt.Key()), SBool))
+				mi.heaps[h] = true
+			}
+		}
 	}
 }
 
@@ -1133,6 +1154,16 @@ type invariant struct {
 }
 
 func (fc *FuncCtx) bindLoopVars(fr *Frame, li *loopInfo, st *State, env *Env) {
+	// visited(k): the ghost visited set of the map iteration of this loop
+	for _, ins := range li.header.Instrs {
+		if nx, ok := ins.(*ssa.Next); ok {
+			if r, ok := nx.Iter.(*ssa.Range); ok {
+				if _, ok := r.X.Type().Underlying().(*types.Map); ok {
+					env.vars["$vis"] = SVal{T: st.H(fc.p, iterHeapName(r))}
+				}
+			}
+		}
+	}
 	// $i: number of completed iterations of this range loop (= next index);
 	// $i<n>: the same for the enclosing/other range loop with ordinal n
 	for _, l := range fr.loops {
